@@ -111,8 +111,9 @@ def handleMerge (j : Json) : Json :=
     let node := decodeNode t
     let fuel := 2 * nodeSize node + 4
     let ok := Asm.labelsOK fuel node 0
+    let cert := Smi.certifyMerge fuel node 0
     match Asm.mergeInt fuel node 0 with
-    | .ok s => Json.mkObj [("ok", Json.bool true), ("smiles", Json.str (String.ofList s)), ("labels_ok", Json.bool ok)]
+    | .ok s => Json.mkObj [("ok", Json.bool true), ("smiles", Json.str (String.ofList s)), ("labels_ok", Json.bool ok), ("certified", Json.bool cert)]
     | .error e => Json.mkObj [("ok", Json.bool false), ("error", Json.str (toString (repr e))), ("labels_ok", Json.bool ok)]
   | _ => Json.mkObj [("error", "no tree")]
 
